@@ -78,6 +78,12 @@ def judge(ld, case, values, res, cls, label) -> list:
         try:
             dec = ld.decode(pdu)
         except Exception as e:
+            if type(e).__name__ == "DecodeMismatch" and "nrc" in (case.get("features") or []):
+                # the VALUE parameter laid over an NRC-CONST was given a value that is not one of the NRC-CONST's
+                # alternatives: the PDU is faithful, the *description* does not apply to it.  Whether the encoder
+                # has to verify NRC-CONST alternatives is left open (TODO in nrcconstparameter.py): not asserted.
+                cls.add("nrc-alternative-not-applicable")
+                return []
             return [_fail("accepted-but-undecodable", f"{label}: encode returned {pdu.hex()} which does not decode: "
                                                        f"{type(e).__name__}: {e}", case, {"label": label})]
     want = _strip_none(mh.to_odx_value(values))
